@@ -290,10 +290,50 @@ fn gen_per_element() -> BoxedStrategy<Value> {
     per_element_cases(rules::rooted(cfg), gen::data_docs())
 }
 
+
+const KINDS: u64 = 6;
+fn check_sizes(case: &Value, obs: &mut Obs) -> Result<(), String> {
+    let n = case["n"].as_u64().unwrap_or(1) as usize;
+    let k = case["k"].as_u64().unwrap_or(0);
+    let arr = sized_array(n);
+    let data = json!({"xs": arr, "s": sized_string(n)});
+    let (rule, data) = match k {
+        0 => (json!({"merge": arr}), Value::Null),
+        1 => (json!({"merge": [{"var": "xs"}, [{"var": "xs"}]]}), data),
+        2 => (json!({"merge": [{"var": "xs"}, 7, {"var": "xs"}]}), data),
+        3 => (json!({"in": [1000, {"var": "xs"}]}), data),
+        4 => (json!({"in": [1001, {"var": "xs"}]}), data),
+        _ => (json!({"in": ["Z", {"var": "s"}]}), data),
+    };
+    size_case(&rule, &data, obs, &format!("size kind {} n {}", k, if n < 1000 { "~2^8" } else if n < 10000 { "~2^12" } else { "~2^16" }))
+}
+
+fn fixed_sizes() -> Vec<Value> {
+    let mut out = vec![];
+    for n in SIZE_EDGES {
+        for k in 0..KINDS {
+            out.push(json!({"n": n, "k": k}));
+        }
+    }
+    out
+}
+
 pub fn property() -> Property {
     Property {
         id: "C15",
         subs: vec![
+            Sub {
+                name: "size_boundaries",
+                about: "arrays and strings of exactly 255 ... 65537 elements / characters: merge of n operands, of an n-array beside a nested one, of two n-arrays around a scalar (length law), in with the needle last / absent in an n-array and at the end of an n-character string, against the reference model.",
+                nontrivial: "every case.",
+                strategy: None,
+                fixed: Some(fixed_sizes),
+                fixed_exhaustive: true,
+                check: check_sizes,
+                quick: 0,
+                thorough: 0,
+                small_stack: false,
+            },
             Sub {
                 name: "fuzz_corpus_replay",
                 about: "every committed corpus input and saved artifact of the libFuzzer target fz_coll - one application of in / merge whose operands are written by the fuzzer as text lines (a line that parses as JSON is that value, any other line is a raw string such as ` 0x1F ` or `12px`; operands literal or through var) - replayed through the target's own body against the reference model; the committed corpus is the coverage-distinct set distilled from campaigns on the unchanged tree, so each input reaches a different piece of the implementation. The thorough tier additionally runs the coverage-guided campaign.",
